@@ -33,3 +33,25 @@ CHECKS["C12"] = dict(
           "findings are excused only for the listed constructor pair AND answer pair AND only when each answer is what that operand's own hook "
           "returns. Whatever excluded. Trusted: z3, SymMeta stub (validated by native replay of one passing class per pair)."),
 )
+
+CHECKS["C13"] = dict(
+    engine="symx", category="model_checking", design_ref="DESIGN.md §6 C13",
+    technique="symbolic execution of the real subclasscheck / isinstance / dispatch over a symbolic class hierarchy (z3) against closed-form membership formulas",
+    text=("For every type term (classes, Union, Intersection, Exactly, StrictSubclass, HasMethod, Deferred, nested to depth 2) and every value class, "
+          "subclasscheck, isinstance and an end-to-end dispatch (method on T over a lower-priority fallback on object) are executed once per class of "
+          "hierarchies they cannot distinguish and compared, by an UNSAT query, with the documented meaning written as a z3 formula over the hierarchy "
+          "variables; reflexivity, equality with issubclass on classes (hence transitivity) and argument-wise covariance on list/dict generics are "
+          "checked the same way on pairs. Enumeration of terms is exhaustive within the universe; hierarchies are exhausted by the solver."),
+    note=("Bounds: n=3 (quick) / 4 (thorough) classes, depth-2 terms; ABCs/protocols are covered as arbitrary issubclass answers of the stub and "
+          "replayed as real inheritance. Trusted: z3, SymMeta stub (validated by native replay per shape), the membership formulas."),
+)
+CHECKS["C14"] = dict(
+    engine="symx", category="model_checking", design_ref="DESIGN.md §6 C14",
+    technique="symbolic execution of the real dispatch on type-valued arguments over a symbolic class hierarchy and priorities (z3), closed-form subtype rule oracle",
+    text=("Method sets annotated with type[...] (classes, list/dict/tuple generics, nested, bare type, object) mixed with plain positions are called "
+          "with classes, parametrised generics, nested parametrisations, typing.Any and ordinary instances; per class of (hierarchy, priorities) the "
+          "outcome is compared by an UNSAT query with the documented subtype rule (subclass for classes, same-or-subclass origin and argument-wise "
+          "subtyping for generics, Any = object, bare type = type[object]) combined with the priority/specificity rule."),
+    note=("Bounds: 3 classes, 2-3 methods, 1-2 positions, shapes sampled (quick 1600, thorough ~19000 of 480k). Inherits the recorded finding "
+          "C02-integer-levels through the same mechanism-level exclusion. Trusted: z3, stubs (validated by native replay per shape)."),
+)
